@@ -69,6 +69,20 @@ pub fn docs() -> &'static Arc<Vec<SDoc>> {
     })
 }
 
+/// Documents whose entry LENGTH field (28 bits) uses its top bit: a string, and a nested container, of
+/// more than 2^27 bytes, each followed by siblings whose offsets depend on that length. Built per call
+/// and not cached (1/8 GiB each).
+pub const N_HUGE: u64 = 2;
+pub fn huge_doc(i: u64) -> SDoc {
+    let n = (1usize << 27) + 5;
+    let (name, val) = match i {
+        0 => ("array: string of 2^27+5 bytes, then 7 and \"t\"", RVal::arr(vec![s(n, 'x'), RVal::u(7), RVal::s("t")])),
+        _ => ("array: [string of 2^27+5 bytes] (a nested container of more than 2^27 bytes), then 7", RVal::arr(vec![RVal::arr(vec![s(n, 'y')]), RVal::u(7)])),
+    };
+    let bytes = enc(&val);
+    SDoc { name: name.into(), val, bytes }
+}
+
 /// boundary indices for a list of length n
 pub fn idxs(n: usize) -> Vec<usize> {
     let mut v = vec![0, 1, n / 2, n.saturating_sub(2), n.saturating_sub(1), n, n + 1, 254, 255, 256, 257, 65535, 65536];
